@@ -625,22 +625,23 @@ func (f *Flow) evalStruct(t *Term, env Env, fl *evalFlags) ISet {
 						return f.fit(o.mapMono(func(x *big.Int) *big.Int { return new(big.Int).Add(x, cst[0].Lo) }), t.T, fl)
 					}
 				}
-				// x | y of non-negative operands: max(x, y) ≤ x|y < 2^k where both are < 2^k
-				// (hi<<8 | lo: the bounds of hi<<8 + lo)
-				if !a.Empty() && !b.Empty() && a.Min().Sign() >= 0 && b.Min().Sign() >= 0 {
-					lo, hi := a.Min(), a.Max()
+			}
+			if (t.Op == token.OR || t.Op == token.XOR) && a.Min().Sign() >= 0 && b.Min().Sign() >= 0 {
+				// non-negative operands: the result has no bit above the highest bit of
+				// either operand, and x|y is at least each operand
+				m := a.Max()
+				if b.Max().Cmp(m) > 0 {
+					m = b.Max()
+				}
+				hi := new(big.Int).Sub(new(big.Int).Lsh(one, uint(m.BitLen())), one)
+				lo := new(big.Int)
+				if t.Op == token.OR {
+					lo = a.Min()
 					if b.Min().Cmp(lo) > 0 {
 						lo = b.Min()
 					}
-					if b.Max().Cmp(hi) > 0 {
-						hi = b.Max()
-					}
-					if hi.BitLen() < 4096 {
-						up := new(big.Int).Sub(new(big.Int).Lsh(one, uint(hi.BitLen())), one)
-						return f.fit(ISet{{lo, up}}, t.T, fl)
-					}
 				}
-				return f.top(t.T)
+				return f.fit(ISet{{lo, hi}}, t.T, fl)
 			}
 			if t.Op != token.AND {
 				return f.top(t.T)
@@ -1356,6 +1357,14 @@ func (w *World) retRangeOK(fn *ssa.Function, idx int) ISet {
 		}
 		acc = acc.Union(s)
 	}
+	// the join-based fixpoint loses a value computed in a loop whose trip count
+	// is fixed per path (length = length<<8 + b over a buffer of 1 or 2 octets):
+	// when its answer says nothing, ask the path explorer
+	if wide := new(big.Int).Lsh(one, 32); acc == nil || acc.Empty() || new(big.Int).Sub(acc.Max(), acc.Min()).Cmp(wide) > 0 {
+		if s := w.pxRetRangeOK(fn, idx); s != nil && (acc == nil || acc.Empty() || s.SubsetOf(acc.Hull())) {
+			acc = s
+		}
+	}
 	w.rets[key] = acc
 	return acc
 }
@@ -1509,6 +1518,13 @@ func (f *Flow) truthSet(v ssa.Value, at *ssa.BasicBlock, env Env, pk *Term, dept
 		return ISet{}, true
 	}
 	s, _ := f.Eval(pk, te)
+	// the refinement is exact only if the two outcomes split the values of pk:
+	// arithmetic that wraps around (tag-lo <= hi-lo) does not propagate back to pk
+	if fe, fok := f.refine(env, t, false); fok {
+		if sf, _ := f.Eval(pk, fe); sf == nil || s == nil || !s.Intersect(sf).Empty() {
+			return nil, false
+		}
+	}
 	return s, true
 }
 
